@@ -54,6 +54,8 @@ async def _run(events, consumers):
         for ev in events:
             if ev[0] == 0:
                 reader.feed_data(G.enc(kind, 0x56, 0x45, ev[1], 5, payload))
+            elif ev[0] == 3:
+                await asyncio.sleep(ev[1])          # time passes (the class loading may take seconds on a cold or busy system)
             elif ev[0] == 1:
                 if ev[1] < len(jobs):
                     fut, func, args = jobs.pop(ev[1])
@@ -127,6 +129,12 @@ class C10(Prop):
                             evs += [[0, before + j + 1, rng.choice([0, 1, 12])] for j in range(after)]
                             evs.append([2, 100])
                             cases.append({"kind": "tight", "events": evs, "consumers": consumers})
+        # slow class loading: seconds pass between the arrivals and the completion of the loading
+        for consumers in (1, 3):
+            for k in (1, 2, 4):
+                for wait in (1, 3, 4):       # (the line must not stay silent for the 10 s read timeout: that is a connection loss, C11)
+                    evs = [[0, 1], [2, 100]] + [[3, wait]] + [[0, i + 2] for i in range(k - 1)] + [[3, wait], [1, 0], [0, k + 1], [2, 101]]
+                    cases.append({"kind": "slow-loading", "events": evs, "consumers": consumers})
         self.exhaustive = True
         return cases
 
@@ -137,7 +145,8 @@ class C10(Prop):
         return vloop.run(_run, c["events"], c["consumers"])
 
     def model_many(self, cases):
-        res = model.call_many("drun", [[True, [e[:2] for e in c["events"]]] for c in cases])
+        # (the passing of time is not an event of the model: nothing in it depends on how long the loading takes)
+        res = model.call_many("drun", [[True, [e[:2] for e in c["events"] if e[0] != 3]] for c in cases])
         return [[r[0], r[1], [list(p) for p in r[2]], sorted(list(p) for p in r[3]), r[4]] for r in res]
 
     def obs(self, c, b):
